@@ -91,7 +91,8 @@ Theorem terminates_within_rounds c : acyclic_cfg c -> wf_deps c ->
 Proof.
   intros Ha Hw es0 s s' Hex Hnr Hr Hnr' Hf Hx.
   assert (Hle: nwaiting c s <= length c).
-  { unfold nwaiting. rewrite <- (seq_length (length c) 0) at 2. apply filter_length_le. }
+  { unfold nwaiting. rewrite <- (seq_length (length c) 0) at 2.
+    generalize (seq 0 (length c)). intros l. induction l as [|x l IHl]; cbn [filter length]; [lia|]. destruct (is_waiting (st s x)); cbn [length]; lia. }
   pose proof (rounds_exhaust_waiting c Ha Hw (length c) es0 s s' Hex Hnr Hr Hle) as Hz.
   assert (Hall: all_settled c (st s') = true).
   { unfold all_settled. apply forallb_forall. intros i Hi. apply in_seq in Hi.
